@@ -136,14 +136,16 @@ def _acc_invariant(E, acc, accvar, b0, i, width):
     ]
 
 
-def while_roles(relpath, qualname):
+def while_roles(relpath, qualname, env=None):
     """Roles of the loop-carried variables of the zero-skipping loops, read off the real AST (robust against renamed
-    locals): per `while V:` loop in source order -> (shift variable V, accumulator A of `A &= seq[I]`, index I)."""
+    locals): per `while V:` loop -> (shift variable V, accumulator A of `A &= seq[I]`, index I).  The loops are those of the
+    function's EXPANSION (engine.Expansion), in the order of their clause ordinals: its own loops and those of the functions it
+    executes in place (a sibling closure of `_pair_with` that both `double` and `doubleprime` call)."""
     import ast
     from pyvc import extract
-    fn = extract.get_function(relpath, qualname).node
+    from pyvc.engine import expanded_loops
     out = []
-    for node in sorted((n for n in ast.walk(fn) if isinstance(n, ast.While)), key=lambda n: n.lineno):
+    for node in (n for n in expanded_loops(extract.get_function(relpath, qualname), env) if isinstance(n, ast.While)):
         sv = node.test.id if isinstance(node.test, ast.Name) else None
         acc = idx = None
         for st in ast.walk(node):
@@ -197,7 +199,7 @@ def _closure_unit(name):
             path.assume(E.in_domain(b))
             env = dict(E.free_vars())
             env['bitset'] = IntV(b, 'SelfBits')
-            roles = while_roles('concepts/matrices.py', 'Vectors._pair_with.<locals>.' + name)
+            roles = while_roles('concepts/matrices.py', 'Vectors._pair_with.<locals>.' + name, env)
             want = 1 if name == 'prime' else 2
             if len(roles) != want or any(None in r for r in roles):
                 from pyvc.engine import Unsupported
